@@ -437,6 +437,7 @@ StartOp(t, op, r) ==
                  [] op = "SendBad" -> Call(base, "MsgSend", MsgArg("Message", 1, "bad" \o ToString(r)), "op.done")
                  [] op = "SendG" -> Call(base, "MsgSend", [kind |-> "Message", nfr |-> 1, tag |-> Tag(r, nst + 1), gate |-> TRUE], "op.done")
                  [] op = "Recv" -> Call(base, "MsgRecv", NONE, "op.done")
+                 [] op = "RecvRaw" -> Call(base, "RawRecv", NONE, "op.done")     \* the bytes returned belong to the caller
                  [] op = "CloseSend" -> Call(base, "CloseSend", NONE, "op.done")
                  [] op = "Close" -> Call(base, "Close", NONE, "op.done")
                  [] op = "SendErr" -> Call(base, "SendError", [tag |-> "ce" \o ToString(r), gate |-> GateU], "op.done"))
@@ -536,7 +537,7 @@ RelM(t) ==
 
 Controllable ==
     \/ \E t \in CliThreads, op \in {"Invoke", "NewStream"}, md \in {NONE, "M1", "M2"} : StartRPC(t, op, md)
-    \/ \E t \in CliThreads, op \in {"Send1", "Send2", "SendBad", "SendG", "Recv", "CloseSend", "Close", "SendErr"}, r \in Sids : StartOp(t, op, r)
+    \/ \E t \in CliThreads, op \in {"Send1", "Send2", "SendBad", "SendG", "Recv", "RecvRaw", "CloseSend", "Close", "SendErr"}, r \in Sids : StartOp(t, op, r)
     \/ \E t \in CliThreads : StartClose(t)
     \/ \E a \in HActs : HStep(a)
     \/ \E e \in Eps, how \in {"ok", "err"} : RelW(e, how)
